@@ -13,6 +13,7 @@ whole reader on damaged files are compared with the implementation's by the corr
 import JubakoModel.Model.Container
 import JubakoModel.Lemmas.DamageFile
 import JubakoModel.Lemmas.FuncsSync
+import JubakoModel.Lemmas.FuncsParse
 
 namespace Jubako
 
@@ -253,5 +254,20 @@ theorem c06_decoder_protocol_is_source_protocol :
     Generated.svDecoderLoopShape = decoderTurnStmts ∧ Generated.svDecoderOkShape = decoderPublishStmts ∧
     Generated.svDecoderErrShape = decoderFailStmts :=
   gen_svShapes
+
+theorem same_isValueOrError {α : Type} (a b : Outcome α) (h : a.Same b) : a.isValueOrError = b.isValueOrError := by
+  cases a <;> cases b <;> simp_all [Outcome.Same, Outcome.erase, Outcome.isValueOrError]
+
+theorem map'_isValueOrError {α β : Type} (a : Outcome α) (g : α → β) : (a.map' g).isValueOrError = a.isValueOrError := by
+  cases a <;> rfl
+
+/-- **The model's classification of property-header bytes into "value or error" and "crash" is the source's**:
+    `RawProperty::parse` translated on every run answers a value or an error exactly on the byte strings on
+    which `RawProp.decode` does (the two panics of the source — `todo!()` for the type nibble `0b0100`,
+    `array_len_size.unwrap()` for a default array without length field — are where the model has them; they
+    sit behind the CRC of the entry-store tail, see the runner). -/
+theorem c06_property_parser_crashes_where_source_does (bs : Bytes) :
+    (Generated.rawPropertyParse bs).isValueOrError = (RawProp.decode bs).isValueOrError := by
+  rw [same_isValueOrError _ _ (gen_rawPropertyParse bs), map'_isValueOrError]
 
 end Jubako
